@@ -9,6 +9,14 @@ def check(pid, cat, text, note, tech, ref):
                   evidence_file="/verif/evidence/%s.json" % pid, replay_cmd_template="./check %s --replay {path}" % pid, engine="vf",
                   level_claimed=dict(category=cat, text=text, design_ref=ref), level_note=note, technique=tech)
 exec(open(os.path.join(HERE, "tools", "manifest_table.py")).read())
+# measured numbers of the last quick run on /repo (from the committed evidence) are appended to the level note
+for pid, c in C.items():
+    try:
+        e = json.load(open(os.path.join(HERE, "evidence", pid + ".json")))
+        cov = e["coverage"]
+        c["level_note"] += " Last %s run recorded in evidence/%s.json: %d evaluations, %d distinct non-trivial cases, %d violations, wall %.0f s." % (e["tier"], pid, cov["evaluations"], cov["distinct_nontrivial"], e["violations"], e["wall_s"])
+    except Exception:
+        pass
 na = [dict(property_id=p["id"], reason=NA.get(p["id"], "check not yet built in this session; not claimed")) for p in props if p["id"] not in C]
 m = dict(version=1, setup_cmd="python3 tools/setup.py",
          hooks=dict(guard="MATRIXSSL_VERIF", enable="tools/vflib.py build(): scratch copy of /repo's working tree built with EXTRA_CFLAGS='<sanitizer flags> -DMATRIXSSL_VERIF'; all observation is by link-time --wrap interposition and the library's own headers, so no source hook exists",
